@@ -5,3 +5,28 @@ mod persister_task;
 pub use log_reader::SegmentLogReader;
 pub use log_writer::SegmentLogWriter;
 pub use persister_task::PersisterTask;
+
+use std::io::IoSlice;
+use tokio::{fs::File, io::AsyncWriteExt};
+
+/// Writes the header and the payload of a batch in full. A single `write_vectored` call may
+/// accept only part of the data (a tokio file buffers at most 2 MiB per call), so it is
+/// repeated with what is left until everything has been handed over.
+async fn write_batch_in_full(
+    file: &mut File,
+    mut header: &[u8],
+    mut payload: &[u8],
+) -> std::io::Result<()> {
+    while !header.is_empty() || !payload.is_empty() {
+        let slices = [IoSlice::new(header), IoSlice::new(payload)];
+        let mut written = file.write_vectored(&slices).await?;
+        if written == 0 {
+            return Err(std::io::ErrorKind::WriteZero.into());
+        }
+        let from_header = written.min(header.len());
+        header = &header[from_header..];
+        written -= from_header;
+        payload = &payload[written.min(payload.len())..];
+    }
+    Ok(())
+}
